@@ -284,50 +284,90 @@ fn c15_constant_verbatim_decode() {
 // Frame: stereo un-mixing + interleaving
 // ================================================================================================
 
-/// For ANY in-range left/right samples: the frame holding the channel pair the RFC 9639 encoder
-/// side defines (left/side, side/right, mid/side with side = l - r, mid = (l + r) >> 1, or the
-/// plain pair) decodes to exactly l0 r0 l1 r1; mid/side agrees with `spec_unmix_midside`.
-//@ unit props=C15,C01 tier=quick kind=bounded timeout=900 funcs="Frame::copy_signal; Frame::signal_len; SubFrame::decode" bound="2 channels, block size 2, verbatim subframes; samples symbolic in 8..=24 bits (side channel one bit more)"
-#[kani::proof]
-#[kani::unwind(6)]
-fn c15_frame_stereo_unmix() {
-    let mut mode = 0;
-    while mode < 4 {
-        let bits: usize = kani::any();
-        kani::assume(8 <= bits && bits <= 24);
-        let l: [i64; 2] = any_samples::<2>(bits);
-        let r: [i64; 2] = any_samples::<2>(bits);
-        let side = [l[0] - r[0], l[1] - r[1]];
-        let mid = [(l[0] + r[0]) >> 1, (l[1] + r[1]) >> 1];
-        assert!(spec_fits(side[0], bits + 1) && spec_fits(mid[0], bits));
-        let (ca, ch0, ch1) = match mode {
-            0 => (ChannelAssignment::Independent(2), l, r),
-            1 => (ChannelAssignment::LeftSide, l, side),
-            2 => (ChannelAssignment::RightSide, side, r),
-            _ => (ChannelAssignment::MidSide, mid, side),
-        };
-        if mode == 3 {
-            assert!(spec_unmix_midside(mid[0], side[0]) == (l[0], r[0]));
-            assert!(spec_unmix_midside(mid[1], side[1]) == (l[1], r[1]));
-        }
-        let b0 = (bits + ca.bits_per_sample_offset(0)) as u8;
-        let b1 = (bits + ca.bits_per_sample_offset(1)) as u8;
-        let sf0: SubFrame = Verbatim::from_samples(&[ch0[0] as i32, ch0[1] as i32], b0).into();
-        let sf1: SubFrame = Verbatim::from_samples(&[ch1[0] as i32, ch1[1] as i32], b1).into();
-        let header = FrameHeader::from_specs(
-            BlockSizeSpec::ExtraByte(1), // block size 2
-            ca,
-            SampleSizeSpec::Unspecified,
-            SampleRateSpec::R44_1kHz,
-        );
-        let frame = Frame::from_parts(header, vec![sf0, sf1]);
-        assert!(frame.signal_len() == 4);
-        let mut dest = [0i32; 4];
-        frame.copy_signal(&mut dest);
-        assert!(dest[0] as i64 == l[0] && dest[1] as i64 == r[0]);
-        assert!(dest[2] as i64 == l[1] && dest[3] as i64 == r[1]);
-        kani::cover!(mode == 3 && (side[0] & 1) == 1 && l[0] < 0);
-        kani::cover!(mode == 2 && bits == 24);
-        mode += 1;
+/// Callee contracts for the per-subframe decoding inside `Frame::copy_signal`: `signal_len` is
+/// the block size and `copy_signal` writes the subframe's signal (established per subframe type by
+/// c15_constant_verbatim_decode, c15_fixed_lpc_decode, c15_lpc_decode).  The k-th call hands out
+/// the k-th channel chosen by the harness.  Needed because the SubFrame variant read back from the
+/// `Vec<SubFrame>` is symbolic for CBMC, which makes `vec![0; signal_len()]` a symbolic-size
+/// allocation (README pitfall 1; the un-stubbed harness runs out of memory).
+static mut UNMIX_CH: [[i32; 2]; 2] = [[0; 2]; 2];
+static mut UNMIX_CALLS: usize = 0;
+fn contract_subframe_signal_len(_sf: &SubFrame) -> usize {
+    2
+}
+fn contract_subframe_copy_signal(_sf: &SubFrame, dest: &mut [i32]) {
+    unsafe {
+        let k = UNMIX_CALLS;
+        UNMIX_CALLS += 1;
+        assert!(k < 2 && dest.len() >= 2);
+        dest[0] = UNMIX_CH[k][0];
+        dest[1] = UNMIX_CH[k][1];
     }
 }
+
+/// For ANY in-range left/right samples: the frame whose two subframes decode to the channel pair
+/// the RFC 9639 encoder side defines (left/side, side/right, mid/side with side = l - r,
+/// mid = (l + r) >> 1, or the plain pair) decodes to exactly l0 r0 l1 r1 (interleaved); mid/side
+/// agrees with `spec_unmix_midside`.
+fn c15_unmix_body(mode: u8) {
+    let bits: usize = kani::any();
+    kani::assume(8 <= bits && bits <= 24);
+    let l: [i64; 2] = any_samples::<2>(bits);
+    let r: [i64; 2] = any_samples::<2>(bits);
+    let side = [l[0] - r[0], l[1] - r[1]];
+    let mid = [(l[0] + r[0]) >> 1, (l[1] + r[1]) >> 1];
+    assert!(spec_fits(side[0], bits + 1) && spec_fits(mid[0], bits));
+    let (ca, ch0, ch1) = match mode {
+        0 => (ChannelAssignment::Independent(2), l, r),
+        1 => (ChannelAssignment::LeftSide, l, side),
+        2 => (ChannelAssignment::RightSide, side, r),
+        _ => (ChannelAssignment::MidSide, mid, side),
+    };
+    if mode == 3 {
+        assert!(spec_unmix_midside(mid[0], side[0]) == (l[0], r[0]));
+        assert!(spec_unmix_midside(mid[1], side[1]) == (l[1], r[1]));
+    }
+    unsafe {
+        UNMIX_CALLS = 0;
+        UNMIX_CH[0] = [ch0[0] as i32, ch0[1] as i32];
+        UNMIX_CH[1] = [ch1[0] as i32, ch1[1] as i32];
+    }
+    let b0 = (bits + ca.bits_per_sample_offset(0)) as u8;
+    let b1 = (bits + ca.bits_per_sample_offset(1)) as u8;
+    let sf0: SubFrame = Constant::from_parts(2, 0, b0).into();
+    let sf1: SubFrame = Constant::from_parts(2, 0, b1).into();
+    let header = FrameHeader::from_specs(
+        BlockSizeSpec::ExtraByte(1), // block size 2
+        ca,
+        SampleSizeSpec::Unspecified,
+        SampleRateSpec::R44_1kHz,
+    );
+    let frame = Frame::from_parts(header, vec![sf0, sf1]);
+    assert!(frame.signal_len() == 4);
+    let mut dest = [0i32; 4];
+    frame.copy_signal(&mut dest);
+    assert!(unsafe { UNMIX_CALLS } == 2);
+    assert!(dest[0] as i64 == l[0] && dest[1] as i64 == r[0]);
+    assert!(dest[2] as i64 == l[1] && dest[3] as i64 == r[1]);
+    kani::cover!((side[0] & 1) == 1 && l[0] < 0 && bits == 24);
+}
+
+//@ unit name=c15_frame_unmix_independent props=C15,C01 tier=quick kind=bounded timeout=600 funcs="Frame::copy_signal; Frame::signal_len; Decode::decode" stubs="SubFrame::signal_len -> contract_subframe_signal_len (block size); SubFrame::copy_signal -> contract_subframe_copy_signal (the subframe's signal; units c15_constant_verbatim_decode, c15_fixed_lpc_decode, c15_lpc_decode)" bound="2 independent channels, block size 2; samples symbolic in 8..=24 bits"
+//@ unit name=c15_frame_unmix_left_side props=C15,C01 tier=quick kind=bounded timeout=600 funcs="Frame::copy_signal; Frame::signal_len; Decode::decode" stubs="SubFrame::signal_len -> contract_subframe_signal_len; SubFrame::copy_signal -> contract_subframe_copy_signal" bound="left/side, block size 2; samples symbolic in 8..=24 bits (side channel one bit more)"
+//@ unit name=c15_frame_unmix_side_right props=C15,C01 tier=quick kind=bounded timeout=600 funcs="Frame::copy_signal; Frame::signal_len; Decode::decode" stubs="SubFrame::signal_len -> contract_subframe_signal_len; SubFrame::copy_signal -> contract_subframe_copy_signal" bound="side/right, block size 2; samples symbolic in 8..=24 bits (side channel one bit more)"
+//@ unit name=c15_frame_unmix_mid_side props=C15,C01 tier=quick kind=bounded timeout=600 funcs="Frame::copy_signal; Frame::signal_len; Decode::decode" stubs="SubFrame::signal_len -> contract_subframe_signal_len; SubFrame::copy_signal -> contract_subframe_copy_signal" bound="mid/side, block size 2; samples symbolic in 8..=24 bits (side channel one bit more)"
+macro_rules! c15_unmix_harness {
+    ($name:ident, $mode:expr) => {
+        #[kani::proof]
+        #[kani::unwind(4)]
+        #[kani::stub(<SubFrame as Decode>::signal_len, contract_subframe_signal_len)]
+        #[kani::stub(<SubFrame as Decode>::copy_signal, contract_subframe_copy_signal)]
+        fn $name() {
+            c15_unmix_body($mode);
+        }
+    };
+}
+c15_unmix_harness!(c15_frame_unmix_independent, 0);
+c15_unmix_harness!(c15_frame_unmix_left_side, 1);
+c15_unmix_harness!(c15_frame_unmix_side_right, 2);
+c15_unmix_harness!(c15_frame_unmix_mid_side, 3);
